@@ -115,17 +115,19 @@ def r3(ctx):
             if t.callee.name == "get_by_key" and (t.callee.trait == IMPLD or (t.callee.path or "").endswith("::get_by_key")):
                 callers.append((b, t))
     rep.call_sites += len(callers)
-    allowed = {CACHE + "::get", rp("get_by_key", IMPLD)}
+    allowed = {CACHE + "::get", rp("get_by_key", IMPLD), ms("get")}
     for b, t in callers:
         rep.check(b.path in allowed, "get_by_key-caller:" + b.path, "raw lookup used only inside Cache::get / the policy pass-through", "get_by_key (no expiry check) is called from %s: an expired item can be observed as present" % b.path, loc_s(t.span))
     # (b) the default Cache::get
-    g = f.one(CACHE + "::get")
+    g, _gmap = impl_or_default(f, MS, "get")  # MemoryStore's own get when it overrides the default
     rep.analysed(g)
-    I = Interp(f)
+    # the two steps stay opaque (they are decided by R1/R2 and C01.R4), whether the calls on Self are resolved (override) or not
+    steps = (ms("get_by_key", IMPLD), ms("check_if_expired", IMPLD))
+    I = Interp(f, policy=lambda body, a: "opaque" if body.path in steps else "inline")
     paths = I.run(g, [P("self"), P("key")])
     rep.evaluations += len(paths)
     for p in paths:
-        calls = [e for e in p.events if e.kind == "call"]
+        calls = [e for e in p.events if e.kind == "call" and e.name.split("::")[-1] in ("get_by_key", "check_if_expired")]
         names = [e.name.split("::")[-1] for e in calls]
         if not names or names[0] != "get_by_key":
             rep.bad("Cache::get:first-call", "Cache::get does not start with get_by_key", g.loc())
@@ -133,6 +135,10 @@ def r3(ctx):
         lookup = calls[0].result
         d = p.state.discr.get(lookup)
         var, pl = variant_of(p.ret)
+        if d is None or isinstance(d, tuple):
+            # the lookup's result is handed back without being examined: a found record reaches the caller unchecked
+            rep.bad("Cache::get:hit-without-expiry-check", "a found record is returned without check_if_expired (the lookup result is passed through: %s)" % short(p.ret, 60), g.loc())
+            continue
         if d == 1:  # lookup Err
             rep.check(var == "Err", "Cache::get:miss", "miss -> Err", "lookup miss does not return Err", g.loc())
         elif d == 0:
